@@ -147,7 +147,7 @@ def g3_world_construction(prog):
     return r
 
 
-@rule('G4', props=['C18', 'C01', 'C05'], floor=5, configs=('all', 'default'))
+@rule('G4', props=['C18', 'C01', 'C05'], floor=4, configs=('all', 'default'))
 def g4_batch_construction(prog):
     """Batch values are only built by the unsafe new_unchecked (len = entities.component_len()); the safe
     constructor calls it only under a true check_len(); check_len/check_len_against of a cons cell
